@@ -43,7 +43,7 @@ func detWorkload(t *sim.Tape) (ops []detOp, desc string) {
 	m := gen.GenMetrics(t, 30)
 	ncm := 2 + t.Choose(3)
 	cmapFile := gen.GenCMapFile(t, ncm)
-	prog := gen.GenPS(t, gen.PSOpts{MaxTokens: 60, ForallDict: true, Errors: 3, MaxAlloc: 50, Hostile: false, PlainLex: true})
+	prog := gen.GenPS(t, gen.PSOpts{MaxTokens: 60, ForallDict: false, Errors: 3, MaxAlloc: 50, Hostile: false, PlainLex: true})
 	desc = fmt.Sprintf("%s; metrics with %d glyphs, %d kern pairs; CMap file with %d CMaps; program of %d tokens", gen.DescribeFont(f), len(m.Glyphs), len(m.Kern), ncm, prog.NTokens)
 
 	var fontFiles [][]byte
@@ -95,6 +95,31 @@ func detWorkload(t *sim.Tape) (ops []detOp, desc string) {
 		in.MaxOps = psSafetyBudget
 		err := in.Execute(bytes.NewReader(prog.Src))
 		return dump.Err(err) + " " + dump.Interp(in)
+	}})
+	// dictionary operators whose result must not depend on iteration order:
+	// copy between dictionaries, forall with an order-free body
+	nk := 2 + t.Choose(6)
+	var dsrc strings.Builder
+	dsrc.WriteString("/d1 <<")
+	for i := 0; i < nk; i++ {
+		fmt.Fprintf(&dsrc, " /k%d %d", t.Choose(12), i)
+	}
+	dsrc.WriteString(" >> def /d2 20 dict def d1 d2 copy pop d2 { pop pop } forall d2 length d1 length d2 /k1 known currentdict d2 copy length")
+	dprog := dsrc.String()
+	ops = append(ops, detOp{"Execute(dict copy/forall)", func() string {
+		in := postscript.NewInterpreter()
+		in.MaxOps = psSafetyBudget
+		err := in.Execute(strings.NewReader(dprog))
+		return dump.Err(err) + " " + dump.Interp(in)
+	}})
+	// a hostile program in its own interpreter: whatever it does must not change
+	// what the other operations return when they are repeated
+	hp := gen.GenPS(t, gen.PSOpts{MaxTokens: 40, Errors: 4, MaxAlloc: 40, Hostile: true, PlainLex: true, Stop: true})
+	ops = append(ops, detOp{"Execute(hostile program)", func() string {
+		in := postscript.NewInterpreter()
+		in.MaxOps = psSafetyBudget
+		err := in.Execute(bytes.NewReader(hp.Src))
+		return dump.Err(err) + " " + dump.InterpNoDSC(in)
 	}})
 	ops = append(ops, detOp{"Font queries", func() string {
 		var sb strings.Builder
@@ -218,7 +243,7 @@ type orderSpec struct {
 // instrumented copy of the library.
 func C17() *sim.Check {
 	sitesByID := loadSites()
-	b := &sim.Batch{Name: "orders", Quick: 3000, Thorough: 120_000, Isolated: true, PerProc: 40, Workers: 16, ChildTimeout: 300 * time.Second}
+	b := &sim.Batch{Name: "orders", Quick: 1500, Thorough: 60_000, Isolated: true, PerProc: 40, Workers: 16, ChildTimeout: 300 * time.Second}
 	b.ChildInit = startDetHelper
 	b.Run = func(c *sim.RunCtx) *sim.Outcome {
 		t := c.T
